@@ -41,6 +41,7 @@ class M:
     rule: Optional[str] = None  # expected rule id prefix (informational + checked when given)
     count: int = 1  # number of places the pattern must match (all are replaced)
     note: str = ""
+    also: tuple = ()  # further (file, func, old, new) edits applied together with this one (multi-site regressions)
 
 
 class StaleMutant(Exception):
@@ -144,6 +145,12 @@ def apply_mutant(src: str, m: M) -> str:
         return ast.unparse(tree)
     if m.old == "<append-module>":
         return src + "\n\n" + m.new + "\n"
+    if m.old == "<add-method>":
+        if not isinstance(scope, ast.ClassDef):
+            raise StaleMutant("<add-method> needs a class scope")
+        scope.body.extend(ast.parse(m.new).body)
+        ast.fix_missing_locations(tree)
+        return ast.unparse(tree)
     if m.old == "<decorate>":
         # new = dotted decorator expression added to the function
         scope.decorator_list.insert(0, ast.parse(m.new, mode="eval").body)
@@ -328,6 +335,21 @@ def annotate_single_assignments(sources: Dict[str, str]) -> Dict[str, str]:
     return out
 
 
+def swap_if_else(sources: Dict[str, str]) -> Dict[str, str]:
+    """`if t: A else: B` -> `if not t: B else: A` for every plain two-branch if (no elif chain)."""
+    out = {}
+    for p, s in sources.items():
+        tree = ast.parse(s)
+        for n in ast.walk(tree):
+            if isinstance(n, ast.If) and n.orelse and not (len(n.orelse) == 1 and isinstance(n.orelse[0], ast.If)):
+                par_chain = False
+                n.test = n.test.operand if isinstance(n.test, ast.UnaryOp) and isinstance(n.test.op, ast.Not) else ast.UnaryOp(op=ast.Not(), operand=n.test)
+                n.body, n.orelse = n.orelse, n.body
+        ast.fix_missing_locations(tree)
+        out[p] = ast.unparse(tree)
+    return out
+
+
 def rename_all_locals(sources: Dict[str, str]) -> Dict[str, str]:
     out = {}
     for p, s in sources.items():
@@ -387,12 +409,18 @@ def _worker(args):
             overlay = annotate_single_assignments(sources)
         elif m.old == "<pass-between-statements>":
             overlay = pass_between_statements(sources)
+        elif m.old == "<swap-if-else>":
+            overlay = swap_if_else(sources)
         elif m.old == "<log-at-function-start>":
             overlay = log_at_function_start(sources)
         else:
             if m.file not in sources:
                 raise StaleMutant(f"file {m.file} not found")
             overlay = {m.file: apply_mutant(sources[m.file], m)}
+            for (f2, fn2, old2, new2) in m.also:
+                if f2 not in sources:
+                    raise StaleMutant(f"file {f2} not found")
+                overlay[f2] = apply_mutant(overlay.get(f2, sources[f2]), M(m.name, f2, fn2, old2, new2))
     except StaleMutant as e:
         return idx, "stale", str(e), []
     except SyntaxError as e:
@@ -421,6 +449,7 @@ GENERIC = [
     M("rename every local variable in every function", "", None, "<rename-all-locals>", "", kind="equiv"),
     M("insert a pass statement between every two statements of every function", "", None, "<pass-between-statements>", "", kind="equiv"),
     M("put a logging call at the start of every function", "", None, "<log-at-function-start>", "", kind="equiv"),
+    M("swap the branches of every plain if/else under the negated test", "", None, "<swap-if-else>", "", kind="equiv"),
     M("annotate every local that is assigned once (x = v  ->  x: object = v)", "", None, "<annotate-single-assignments>", "", kind="equiv"),
 ]
 
